@@ -39,6 +39,7 @@ type Contract struct {
 	Lets     [][2]string
 	Ghost    []string
 	Tags     []string // default tags for safety obligations of this function
+	Locals   []string // locals of the function in declaration order when the contract was written (locals.go)
 	Opts     map[string]string
 	File     string
 }
@@ -73,7 +74,7 @@ func parseTags(rest string) ([]string, string, string) {
 
 var clauseKeywords = map[string]bool{"func": true, "extern": true, "mode": true, "requires": true, "ensures": true,
 	"modifies": true, "decreases": true, "loop": true, "uses": true, "pure": true, "trusted": true, "let": true,
-	"tags": true, "opt": true, "ghost": true, "define": true}
+	"tags": true, "opt": true, "locals": true, "ghost": true, "define": true}
 
 // parseContractFile reads the //@ lines of one file.
 func parseContractFile(path, pkg string) ([]*Contract, error) {
@@ -168,6 +169,8 @@ func parseContractFile(path, pkg string) ([]*Contract, error) {
 			cur.Pure = true
 		case "trusted":
 			cur.Trusted = true
+		case "locals":
+			cur.Locals = append(cur.Locals, strings.Fields(rest)...)
 		case "uses":
 			cur.Uses = append(cur.Uses, strings.Fields(rest)...)
 		case "tags":
